@@ -176,20 +176,7 @@ pub fn observe(_ctx: &Ctx, st: &mut Stats, rj: &RJob) {
     // of them in the leftmost / topmost / last columns and rows) and rendered again with the same builder on the same
     // thread; the document must follow the edited matrix
     if rj.job.seed % 3 == 1 {
-        let mut edited = qr.clone();
-        let n = edited.size;
-        let mut rng = Rng::new(rj.job.seed ^ 0xed17);
-        let edits = 1 + rng.below(4);
-        for e in 0..edits {
-            let (r, c) = match (e + rng.below(2)) % 4 {
-                0 => (rng.below(n), rng.below(n.min(12))),
-                1 => (rng.below(n.min(12)), rng.below(n)),
-                2 => (rng.below(n), n - 1 - rng.below(n.min(6))),
-                _ => (rng.below(n), rng.below(n)),
-            };
-            let m = edited.data[r * n + c];
-            edited.data[r * n + c] = fast_qr::Module(m.0 ^ 1);
-        }
+        let (edited, edits) = adapter::edited_by_hand(&qr, rj.job.seed);
         let svg2 = match adapter::guarded(|| rj.spec.svg_builder().to_str(&edited)) {
             Ok(s) => s,
             Err(p) => {
@@ -199,7 +186,7 @@ pub fn observe(_ctx: &Ctx, st: &mut Stats, rj: &RJob) {
         };
         match svgcheck::check_svg(&svg2, &edited, &rj.spec) {
             Ok(_) => st.count("hand_edited_matrices_rendered_right_after_the_original", 1),
-            Err(v) => st.violation(ID, &format!("edited-matrix/{}", v.0), format!("{} (the same builder had just rendered the unedited symbol on this thread; {edits} module(s) toggled by hand) [qr: {}; spec: {}]", v.1, cfg.describe(), rj.spec.describe()), rj.to_json()),
+            Err(v) => st.violation(ID, &format!("edited-matrix/{}", v.0), format!("{} (the same builder had just rendered the unedited symbol on this thread; edited by hand: {edits}) [qr: {}; spec: {}]", v.1, cfg.describe(), rj.spec.describe()), rj.to_json()),
         }
     }
 }
